@@ -5,6 +5,43 @@ ROOT = os.path.dirname(os.path.dirname(os.path.abspath(__file__)))
 ALL = ["C%02d" % i for i in range(1, 21)]
 
 CHECKS = {
+ "C05": dict(
+    category="model_checking",
+    text="Header.tla defines Parse(bytes) for levels 0-3 from the format (field offsets, extended-header chains with last-one-wins, "
+         "level-1 packed-size subtraction on 32-bit word pairs, level-0 Unix/OS-9 areas, separators, case folding by OS type, "
+         "symlink splitting, OS-9 permission mapping, Amiga/LHARK fix-ups, MS-DOS time -> Unix time with mktime's normalisation "
+         "under UTC, Windows times as words, common CRC). The definition is grounded on all 233 member headers of the third-party "
+         "corpus. Every case - corpus headers, 12000 (thorough: 150000) random well-formed headers with fields at their range ends "
+         "and random extended-header mixes, every order of up to 3 (4) of the 11 extended-header types, symlinks with '|' on both "
+         "sides - is run through lha_reader_next_file and TLC compares every returned field (and the first member bytes) with Parse.",
+    design_ref="DESIGN.md section 5, C05",
+    note="TZ=UTC and the C locale are assumed. The TLA+ definition is the oracle; it was written independently of the C control flow "
+         "and agrees with the C code on the whole corpus.",
+    technique="TLA+ executable definition of the header formats (Header.tla); trace validation of every returned header field by TLC"),
+ "C11": dict(
+    category="model_checking",
+    text="TLC checks on all strings over {'.','/','a'} up to length 8 (thorough 10) that the in-place state machine of collapse_path "
+         "(transcribed) equals the declarative normal form, that the result is clean, not longer, and idempotent. On the "
+         "implementation, all strings over {'.','/','\\',0xFF,NUL,'a'} up to length 5 (thorough 7) are put through ten carriers "
+         "(level-0/1 in-header names, file-name and path extended headers, directory entries, level 3, symlinks in both spellings) "
+         "for case-folding and non-folding OS types, plus random longer strings; TLC evaluates Clean(path, filename) on every "
+         "returned header.",
+    design_ref="DESIGN.md section 5, C11",
+    note="The cleanliness predicate is evaluated on the logged values of the real library; the model only adds the equivalence "
+         "argument for collapse_path.",
+    technique="TLC model checking of the collapse_path state machine against the declarative normal form; exhaustive small-string "
+              "conformance with the invariant evaluated by TLC on returned headers"),
+ "C12": dict(
+    category="model_checking",
+    text="For 16 (thorough 120) well-formed base headers covering all levels and chain shapes: all 255 substitutions at every byte "
+         "position of the header, every truncation point, and perturbations of every length field; plus sparse mutations of "
+         "hundreds of random headers. For each mutated input TLC evaluates the integrity rule (Header.tla's Parse, incl. byte "
+         "checksum and CRC-16 computed in TLA+) on the logged bytes and requires: rule fails => no header returned and the next "
+         "request returns none either.",
+    design_ref="DESIGN.md section 5, C12",
+    note="A dummy member precedes each case so that the lead-in scan (which would skip a damaged signature) is not in play.",
+    technique="TLA+ executable integrity rule (Header.tla) evaluated by TLC on exhaustive single-byte substitutions / truncations, "
+              "trace validation of accept/reject"),
  "C07": dict(
     category="model_checking",
     text="TLC proves the burst lemma on the CRC-16 definition: every burst of 1..16 bits at each of the 8 bit alignments leaves a "
